@@ -25,9 +25,9 @@
 (* Extend = TRUE: identifier-list style (a following join extends the group);   *)
 (* FALSE: operation style (nesting to the left).                                *)
 (***************************************************************************)
-EXTENDS Naturals, Integers, Sequences, FiniteSets
+EXTENDS Naturals, Integers, Sequences, FiniteSets, TLC, Json
 
-CONSTANTS MaxLen, Extend,
+CONSTANTS MaxLen, Extend, Emit,
           PostMode    \* "pn": post = (pidx, nidx);  "semi": group_assignment's post = (pidx, next `;` after nidx, else nidx)
 
 VARIABLES phase, inp, kids, off, pidx, prevKind, idx, groups, err
@@ -98,4 +98,10 @@ Sig(ks, i) == IF i > Len(ks) THEN <<>> ELSE (IF ks[i].t = "w" THEN <<>> ELSE <<k
 Complete == phase = "done" /\ err = "" =>
               LET s == Sig(kids, 1) IN
               ~\E i \in 1..(Len(s) - 2) : IsOperand(s[i]) /\ s[i + 1] = "m" /\ IsOperand(s[i + 2])
+\* S->C channel: every finished run with the live list and the groups it made; the replay feeds the same token kinds
+\* to the real grouping._group (a private function, called directly with synthetic tokens) and compares
+PrintDone == (Emit /\ phase = "done") =>
+    PrintT("@@" \o ToJson([inp |-> inp, err |-> err,
+                           kids |-> [i \in 1..Len(kids) |-> <<kids[i].t, kids[i].lo, kids[i].hi>>],
+                           groups |-> { <<g.lo, g.hi>> : g \in groups }]))
 =============================================================================
